@@ -4,6 +4,7 @@ from ..expressions import (
     AddExpression,
     BinaryExpression,
     ConstantExpression,
+    DivideExpression,
     EqualExpression,
     MathExpression,
     MultiplyExpression,
@@ -56,6 +57,15 @@ class ConstantsSimplifyRule(BaseRule):
         """
         # An equation between two constants is not arithmetic to be folded
         if isinstance(node, EqualExpression):
+            return None
+
+        # A division by zero has no value to fold to
+        folded = node.get_child() if isinstance(node, NegateExpression) else node
+        if (
+            isinstance(folded, DivideExpression)
+            and isinstance(folded.right, ConstantExpression)
+            and folded.right.value == 0
+        ):
             return None
 
         # Check for a negation wrapping a simple binary op with constants
